@@ -1,6 +1,9 @@
 #include "core/interpreter.h"
 #include "../../../common/ast.h"
 #include "../../../common/debug.h"
+#ifdef CB_VERIF
+#include "../../../common/cb_verif_hook.h"
+#endif
 #include "../../../common/debug_messages.h"
 #include "../../../common/type_helpers.h"
 #include "../../../common/utf8_utils.h"
@@ -1088,6 +1091,9 @@ void Interpreter::execute_statement(const ASTNode *node) {
     // ========================================================================
     case ASTNodeType::AST_YIELD_STMT:
         debug_msg(DebugMsgId::ASYNC_YIELD_CONTROL);
+#ifdef CB_VERIF
+        cb_verif_trace("yield_stmt %d", get_current_executing_task_id());
+#endif
         throw YieldException();
         break;
 
